@@ -176,9 +176,16 @@ block_skip_read(BOOL needs_block, BYTE **buffer, INT32 *size,
             rc = TPM_RC_BAD_PARAMETER;
         } else if (has_block && !needs_block) {
             /* byte stream has the data but we don't need them */
-            *buffer += blocksize;
-            *size -= blocksize;
-            *skip_code = TRUE;
+            if (*size < 0 || (UINT32)*size < blocksize) {
+                TPMLIB_LogTPM2Error("%s: block to skip (%u bytes) for %s is "
+                                    "larger than the remaining %d bytes\n",
+                                    name, blocksize, field, *size);
+                rc = TPM_RC_INSUFFICIENT;
+            } else {
+                *buffer += blocksize;
+                *size -= blocksize;
+                *skip_code = TRUE;
+            }
         } else if (!has_block && !needs_block) {
             /* no block but also none needed */
             *skip_code = TRUE;
